@@ -3039,9 +3039,14 @@ func (c *compiler) emitCallee(callee compiledExpr) (calleeName unistring.String)
 		calleeName = callee.name
 		callee.emitGetterAndCallee()
 	case *compiledOptionalChain:
+		// (a?.b)(): the chain ends before the call. The normal path leaves 'this' and the callee, a
+		// short-circuit leaves a single undefined: give it its 'this' slot too so that both paths meet
+		// with the same operand-stack height.
 		c.startOptChain()
 		c.emitCallee(callee.expr)
+		c.emit(jump(2))
 		c.endOptChain()
+		c.emit(loadUndef)
 	case *compiledOptional:
 		c.emitCallee(callee.expr)
 		c.block.conts = append(c.block.conts, len(c.p.code))
@@ -3049,15 +3054,28 @@ func (c *compiler) emitCallee(callee compiledExpr) (calleeName unistring.String)
 	case *compiledSuperExpr:
 		// no-op
 	default:
-		c.emit(loadUndef)
-		callee.emitGetter(true)
+		if c.block != nil && c.block.typ == blockOptChain {
+			// Inside an optional chain the callee may short-circuit to the end of the chain. Evaluate it
+			// before 'this' is pushed, so that the jump is taken with nothing extra on the stack, then
+			// slide an undefined 'this' underneath.
+			callee.emitGetter(true)
+			c.emit(dup, loadUndef, rdupN(2), pop)
+		} else {
+			c.emit(loadUndef)
+			callee.emitGetter(true)
+		}
 	}
 	return
 }
 
 func (e *compiledCallExpr) emitGetter(putOnStack bool) {
+	var chain *block
+	var numBreaks, numConts int
 	if e.isVariadic {
 		e.c.emit(startVariadic)
+		if b := e.c.block; b != nil && b.typ == blockOptChain {
+			chain, numBreaks, numConts = b, len(b.breaks), len(b.conts)
+		}
 	}
 	calleeName := e.c.emitCallee(e.callee)
 
@@ -3114,6 +3132,24 @@ func (e *compiledCallExpr) emitGetter(putOnStack bool) {
 	}
 	if e.isVariadic {
 		e.c.emit(endVariadic)
+		if chain != nil && (len(chain.breaks) > numBreaks || len(chain.conts) > numConts) {
+			// The callee contains optional links of the enclosing chain. Their short-circuit jumps must not
+			// skip endVariadic, or the variadic marker would stay on the stack: route them through a copy
+			// of it, then on to the end of the chain.
+			e.c.emit(jump(3))
+			lbl := len(e.c.p.code)
+			for _, item := range chain.breaks[numBreaks:] {
+				e.c.p.code[item] = jopt(lbl - item)
+			}
+			for _, item := range chain.conts[numConts:] {
+				e.c.p.code[item] = joptc(lbl - item)
+			}
+			chain.breaks = chain.breaks[:numBreaks]
+			chain.conts = chain.conts[:numConts]
+			e.c.emit(endVariadic)
+			chain.breaks = append(chain.breaks, len(e.c.p.code))
+			e.c.emit(nil)
+		}
 	}
 	if !putOnStack {
 		e.c.emit(pop)
